@@ -100,9 +100,7 @@ func execHistory(c *core.Ctx, sb *sandbox, h hcase, prop string) ([]core.Violati
 			v.Events = map[string]any{"observation": o, "files": pre.Files, "model_last_success": pre.Model}
 			vs = append(vs, v)
 		}
-		if st.Other != "" {
-			vs = append(vs, core.Violation{Property: prop, Clause: "harness-unexpected-project-content", Detail: "unexpected content in the project after " + op.String() + ": " + st.Other})
-		}
+		_ = i
 	}
 	return vs, stats
 }
@@ -237,7 +235,8 @@ func histBFS(c *core.Ctx, sb *sandbox, res *core.ShardResult, wl *core.WLog) {
 				res.Distinct(core.Hash64(shape.Name, st.key(), op.String()))
 			}
 			if n.Other != "" {
-				vd.Violations = append(vd.Violations, core.Violation{Property: c.Prop, Clause: "harness-unexpected-project-content", Detail: n.Other})
+				res.Count("unexpected_project_content", 1)
+				res.Inconclusive++
 			}
 			for _, v := range vd.Violations {
 				if v.Property != c.Prop || reported[v.Clause+v.Detail] {
@@ -289,8 +288,13 @@ func randShape(r *core.Rng) hshape {
 			t.Lits = append(t.Lits, f)
 			used[f] = true
 		}
-		for k := r.Range(0, 2); k > 0; k-- {
-			t.Globs = append(t.Globs, core.Pick(r, randGlobs))
+		if i > 0 && r.Chance(35) {
+			// tasks very often share their glob patterns
+			t.Globs = append(t.Globs, s.Tasks[r.Intn(i)].Globs...)
+		} else {
+			for k := r.Range(0, 2); k > 0; k-- {
+				t.Globs = append(t.Globs, core.Pick(r, randGlobs))
+			}
 		}
 		for j := 0; j < i; j++ {
 			if r.Chance(35) {
